@@ -8,12 +8,14 @@ import (
 	"math/rand"
 	"os"
 	"path/filepath"
+	"reflect"
 	"runtime"
 	"sort"
 	"strings"
 	"sync"
 
 	protocol "github.com/hujm2023/go-sms-protocol"
+	sms "github.com/hujm2023/go-sms-protocol"
 	"github.com/hujm2023/go-sms-protocol/cmpp"
 	"github.com/hujm2023/go-sms-protocol/datacoding"
 	gsm7 "github.com/hujm2023/go-sms-protocol/datacoding/gsm7encoding"
@@ -104,6 +106,36 @@ func concOp(kind int, seed int64) string {
 		d, _ := gsm7.Decode(gsm7.Unpack(p))
 		e, _ := gsm7.Encode(randText(rr, rr.Intn(50)))
 		return string(p) + "|" + string(d) + "|" + string(e)
+	case 7: // answer a request: decode, GenEmptyResponse, (yield), encode the response
+		tn := typeNames[rr.Intn(len(typeNames))]
+		if tn == "cmpp.SubPduDeliveryContent" {
+			return "-"
+		}
+		a := defaultAssign(rr, tn, true)
+		p, ok := build(tn, a).(sms.PDU)
+		if !ok {
+			return "-"
+		}
+		p.SetSequenceID(rr.Uint32())
+		resp := p.GenEmptyResponse()
+		if resp == nil || reflect.ValueOf(resp).IsNil() {
+			return "nil"
+		}
+		runtime.Gosched()
+		b, err := resp.IEncode()
+		return fmt.Sprint(b, err != nil)
+	case 8: // a large encode (several KiB)
+		tn, a := largeAssign(rr)
+		b, err := build(tn, a).IEncode()
+		if err != nil {
+			return "err"
+		}
+		runtime.Gosched()
+		p := ctors[tn]()
+		if p.IDecode(b) != nil {
+			return "decerr"
+		}
+		return fmt.Sprint(len(b)) + snapJSON(project(tn, p))
 	default: // decode via dispatcher-less IDecode + relay
 		tn := typeNames[rr.Intn(len(typeNames))]
 		a := defaultAssign(rr, tn, true)
@@ -140,7 +172,7 @@ func runConc(c Case, tr *Tracer) {
 	ids := make([][]int, ng)
 	for g := 0; g < ng; g++ {
 		for i := 0; i < nops; i++ {
-			o := opd{rr.Intn(8), rr.Int63()}
+			o := opd{rr.Intn(10), rr.Int63()}
 			prog[g] = append(prog[g], o)
 			opID++
 			ids[g] = append(ids[g], opID)
